@@ -21,5 +21,15 @@ PROPS = {
     },
 }
 
+PROPS['C14'] = {
+    'module': 'Yabgp.Props.C14',
+    'theorems': ['Yabgp.C14_open_roundtrip', 'Yabgp.C14_open_true_as', 'Yabgp.C14_open_decodes_reference',
+                 'Yabgp.C14_notification_roundtrip', 'Yabgp.C14_keepalive', 'Yabgp.C14_keepalive_rejects_body',
+                 'Yabgp.C14_routerefresh_roundtrip'],
+    'genagree': ['Yabgp.GenAgree.open_tables', 'Yabgp.GenAgree.capability_codes', 'Yabgp.GenAgree.header_consts'],
+    'suites': ['openmsg'],
+    'cannot': 'netaddr rendering of the BGP identifier is compared as text produced by the model\'s own dotted-quad renderer',
+}
+
 # properties not claimed yet, with the reason that goes into MANIFEST.not_applicable
 NOT_YET = {}
